@@ -82,7 +82,7 @@ def r2_one_state_per_subject(ctx):
             ok = len(c.args) == 2 and U(c.args[0]).startswith("states[") and U(c.args[1]).startswith("datasets[") and U(c.args[0])[7:] == U(c.args[1])[9:]
             ctx.check(ok, "C07.R2", f, c, "the subject's data goes into the subject's own state", f"`{U(c)[:80]}`: state and dataset of different subjects are paired")
     sc = [s for s in statements(f.node) if isinstance(s, ast.Assign) and U(s.targets[0]) == "ips_scalings"]
-    ok = bool(sc) and "from_state(state" in U(sc[0].value)
+    ok = bool(sc) and ".from_state(" in U(sc[0].value) and "states[" not in U(sc[0].value)
     ctx.check(ok, "C07.R2", f, sc[0] if sc else f.node, "scalings come from the population-level state (shared, read-only)", "scalings are not derived from the shared population-level state", construct="shared scalings")
 
 
@@ -137,7 +137,8 @@ def r4_individual_sampler(ctx):
     ctx.check(ok, "C07.R4", sh or sf.f, (sh or sf.f).node, "one proposal scale per individual", "the proposal scale is shared between individuals: one individual's acceptance history changes another's proposals",
               construct="shape_adapted_std")
     g = ix.func("leaspy.samplers.base", "AbstractSampler._group_metropolis_step", "C07.R4")
-    ok = "torch.rand(alpha.shape)" in U(g.node)
+    from ..astq import Canon
+    ok = any("torch.rand($1.shape)" in r or "torch.rand_like($1)" in r for r in Canon(g.node).returns())
     ctx.check(ok, "C07.R4", g, g.node, "one uniform draw per individual (position-indexed)", "individuals share a uniform draw", construct="draw per individual")
 
 
